@@ -96,7 +96,7 @@ func (g *c02Gen) node(depth int) *pNode {
 		return &pNode{kind: 11, data: verifChoose(2), body: g.list(depth-1, 3)}
 	}
 	g.spec++ // (variety without a further fork)
-	return &pNode{kind: 9, text: []string{"{sp}", "{lb}", "{literal}{x}{/literal}", "{css c}", "{log}L{/log}", "{msg desc=\"d\"}m{/msg}"}[(g.spec+g.budget)%6]}
+	return &pNode{kind: 9, text: []string{"{sp}", "{lb}", "{literal}{x}{/literal}", "{css c}", "{log}L{/log}", "{msg desc=\"d\"}m{/msg}", "{literal}\n {/literal}", "{nil}{\\t}"}[(g.spec+g.budget)%8]}
 }
 
 func c02Src(ns []*pNode) string {
@@ -390,6 +390,10 @@ func (e *c02Env) run(ns []*pNode) {
 			case "{log}L{/log}":
 			case "{msg desc=\"d\"}m{/msg}":
 				e.out = append(e.out, 'm')
+			case "{literal}\n {/literal}":
+				e.out = append(e.out, "\n "...)
+			case "{nil}{\\t}":
+				e.out = append(e.out, '\t')
 			}
 		}
 	}
@@ -416,7 +420,8 @@ func c02Run(depth, budget, llen, profile int) {
 	prog := g.list(depth, 3)
 	// fixed trailer: the params are printed after the generated body, so that anything the body
 	// leaks into the enclosing scope shows
-	prog = append(prog, &pNode{kind: 0, text: "|"}, &pNode{kind: 1, name: "a"}, &pNode{kind: 1, name: "b"})
+	prog = append(prog, &pNode{kind: 0, text: "|"}, &pNode{kind: 1, name: "a"}, &pNode{kind: 1, name: "b"},
+		&pNode{kind: 9, text: "{literal}\n {/literal}"}, &pNode{kind: 9, text: "{nil}{\\t}"}, &pNode{kind: 0, text: "."})
 	src := "{namespace n}\n/** @param a\n @param b\n @param l\n @param m */\n{template .t autoescape=\"false\"}\n" + c02Src(prog) + "\n{/template}\n" + c02Callee
 	verifObserve("body", c02Src(prog))
 	tofu, cerr := verifCompileNoCheck(src)
